@@ -945,7 +945,11 @@ void
 Ipc::StoreMapAnchor::setKey(const cache_key *const aKey)
 {
     memcpy(key, aKey, sizeof(key));
-    waitingToBeFreed = Store::Root().markedForDeletion(aKey);
+    // Never clear the flag here: rewind() cleared it when this anchor was
+    // emptied, and we have been holding the exclusive lock since then, so a
+    // set flag means a concurrent freeEntry*() call that must not be lost.
+    if (Store::Root().markedForDeletion(aKey))
+        waitingToBeFreed = true;
 }
 
 bool
